@@ -11,6 +11,7 @@ Obligation markers in the rendered text (parsed back by the driver):
                                                       (unwrap/index/overflow/callee preconditions) or, for a
                                                       `proof fn`, the lemma statement itself
 """
+import os
 import re
 
 from extract import AnchorLost, Extracted, extract, block_after, code_mask, match_delim  # noqa: F401
@@ -84,6 +85,25 @@ class Ctx:
             e.sig_orig = re.sub(r'\b(?:mut\s+)?_*[A-Za-z][A-Za-z0-9_]*\s*:\s*(?!:)', '', norm(e.fn_parts()[0]))
         except AnchorLost:
             e.sig_orig = None
+        # X9(d): the contract is written with the parameter names of the pinned tree (vc/param_baseline.json); if an edit renamed parameters (same
+        # number, same order) the names in the contract text follow
+        try:
+            e.param_names_orig = _param_names(e.fn_parts()[0])
+        except Exception:
+            e.param_names_orig = None
+        base = self._param_baseline().get(key)
+        if base and e.param_names_orig and len(base) == len(e.param_names_orig) and base != e.param_names_orig and '$' not in spec:
+            def _ren(text):
+                for b, c in zip(base, e.param_names_orig):
+                    if b != c and b != '__unnamed' and c != '__unnamed':
+                        text = re.sub(r'(?<![\.\w:])%s\b(?!\s*:(?!:))' % re.escape(b), '\x00%s\x00' % c, text)
+                return text.replace('\x00', '')
+            spec = _ren(spec)
+            body_prefix = _ren(body_prefix)
+            inserts = tuple((i[0], i[1], _ren(i[2])) + tuple(i[3:]) for i in inserts)
+            ren = dict(zip(base, e.param_names_orig))
+            param_names = tuple(ren.get(n, n) for n in param_names)
+            e.log('X9d', 'parameters renamed by the edit (%s -> %s): the contract text follows' % (base, e.param_names_orig))
         e.normalize_params(param_names)
         e.drop_log_macros()
         e.replace_macro('anyhow', 'Error::msg()')
@@ -103,6 +123,16 @@ class Ctx:
             if pub:
                 e.make_pub()
             pre_contract = e.text
+            if '$' in spec:
+                # positional parameter references: `$1`, `$2`, .. stand for the function's non-self parameters in order, whatever they are called
+                # in this tree (so that renaming a parameter changes nothing)
+                pn = _param_names(e.fn_parts()[0])
+                def _sub(m):
+                    k = int(m.group(1))
+                    if k < 1 or k > len(pn):
+                        raise AnchorLost('%s: the contract refers to parameter %d, the function has %d' % (key, k, len(pn)))
+                    return pn[k - 1]
+                spec = re.sub(r'\$(\d)', _sub, spec)
             e.contract(ret=ret, spec=spec, body_prefix=body_prefix, sig_rewrites=sig_rewrites)
         except AnchorLost as err:
             self._lose(key, props, [spec] + [i[2] for i in inserts], 'the function no longer has the shape its contract is written for (%s)' % str(err)[-200:])
@@ -275,6 +305,54 @@ class Ctx:
 
     def note(self, s):
         self.notes.append(s)
+
+    def _param_baseline(self):
+        if not hasattr(self, '_pb'):
+            try:
+                import json as _json
+                self._pb = _json.load(open(os.path.join(os.path.dirname(os.path.abspath(__file__)), 'param_baseline.json'))).get(self.unit, {})
+            except Exception:
+                self._pb = {}
+        return self._pb
+
+
+def _param_names(sig):
+    """names of the non-self parameters of a fn signature, in order"""
+    m = re.search(r'\bfn\s+[A-Za-z_][A-Za-z0-9_]*', sig)
+    i = m.end()
+    depth = 0
+    if i < len(sig) and sig[i] == '<':
+        while i < len(sig):
+            if sig[i] == '<': depth += 1
+            elif sig[i] == '>' and sig[i - 1] != '-':
+                depth -= 1
+                if depth == 0:
+                    i += 1
+                    break
+            i += 1
+    while i < len(sig) and sig[i] != '(':
+        i += 1
+    depth, cur, parts = 0, '', []
+    for ch in sig[i + 1:]:
+        if ch in '([{<': depth += 1
+        elif ch in ')]}>':
+            if ch == ')' and depth == 0:
+                break
+            depth -= 1
+        if ch == ',' and depth == 0:
+            parts.append(cur); cur = ''
+        else:
+            cur += ch
+    if cur.strip():
+        parts.append(cur)
+    out = []
+    for p in parts:
+        p = p.strip()
+        if re.match(r'^(&\s*)?(\'\w+\s+)?(mut\s+)?self\b', p):
+            continue
+        mm = re.match(r'^(?:mut\s+)?([A-Za-z_][A-Za-z0-9_]*)\s*:', p)
+        out.append(mm.group(1) if mm else '__unnamed')
+    return out
 
 
 def norm(s):
